@@ -120,7 +120,14 @@ pub fn gen_case(seed: u64, k: u64) -> Case {
         entropy_seed: rng::derive(seed, "c20.entropy", k),
         knobs,
         delay_us: *r.pick(&[0u64, 0, 1_000, 10_000, 49_000, 50_000, 51_000, 200_000])
-            + r.below(1000) as u64,
+            + r.below(1000) as u64
+            // the editor sat open for a while in this state before it was closed (only in states in which the
+            // server has nothing to compute, so that the time costs the simulation next to nothing)
+            + if matches!(cell / N_VARIANTS, 0 | 1 | 3 | 4 | 5 | 6 | 7 | 8 | 9 | 14) && r.below(3) == 0 {
+                *r.pick(&[3_000_000u64, 17_000_000, 64_000_000])
+            } else {
+                0
+            },
     }
 }
 
@@ -486,6 +493,7 @@ pub fn scenario(case: &Case, slot: &Arc<StdMutex<Option<Verdict>>>) {
     hist("harness", "last_client_action", Value::Null);
     let t0 = clock::now_us();
     let d0 = mos_simrt::sched::decisions_so_far();
+    let q0 = clock::quiescent_us();
     let bound_us: u64 = if variant == 3 { 45_000_000 } else { 5_000_000 };
     // Simulated time alone is not evidence that the process had the chance to finish: the clock may run ahead
     // of threads that still have hundreds of small steps to take (single-byte socket writes under an eager
@@ -496,7 +504,12 @@ pub fn scenario(case: &Case, slot: &Arc<StdMutex<Option<Verdict>>>) {
         if main_done.load(::std::sync::atomic::Ordering::SeqCst) {
             break;
         }
-        if clock::now_us() - t0 > bound_us && mos_simrt::sched::decisions_so_far() - d0 > PATIENCE {
+        // ... or one that has, since the client's last action, spent more than the bound with every one of its
+        // threads waiting (time that passes while nothing is runnable cannot be the clock running ahead).
+        let waited_idle = clock::quiescent_us() - q0 > bound_us;
+        if waited_idle
+            || (clock::now_us() - t0 > bound_us && mos_simrt::sched::decisions_so_far() - d0 > PATIENCE)
+        {
             v.hang = true;
             break;
         }
